@@ -762,6 +762,48 @@ impl World {
                 }
                 o
             }
+            ["freenull"] => {
+                // the free functions must accept NULL
+                unsafe {
+                    c_api::shorebird_free_string(std::ptr::null());
+                    c_api::shorebird_free_update_result(std::ptr::null_mut());
+                }
+                "unit".into()
+            }
+            ["updatebadch"] => {
+                // a channel that is not UTF-8: error status, message present, nothing else happens
+                Self::set_env(None, None);
+                let bad = [0xffu8, 0xfe, 0x00];
+                let r = c_api::shorebird_update_with_result(bad.as_ptr() as *const libc::c_char);
+                let status = unsafe { (*r).status };
+                let has_msg = unsafe { !(*r).message.is_null() };
+                unsafe { c_api::shorebird_free_update_result(r as *mut c_api::UpdateResult) };
+                format!("{}{}", status, if has_msg { "" } else { ":nomsg" })
+            }
+            ["checkbadch"] => {
+                Self::set_env(None, None);
+                let bad = [0xffu8, 0xfe, 0x00];
+                c_api::shorebird_check_for_downloadable_update(bad.as_ptr() as *const libc::c_char).to_string()
+            }
+            ["initbadutf8"] => {
+                let bad = [0xffu8, 0xfe, 0x00];
+                let storage_c = CString::new(self.storage.to_str().unwrap()).unwrap();
+                let cache_c = CString::new(self.cache.to_str().unwrap()).unwrap();
+                let base_c = CString::new(self.base_path.to_str().unwrap()).unwrap();
+                let paths = [base_c.as_ptr()];
+                let params = c_api::AppParameters {
+                    release_version: bad.as_ptr() as *const libc::c_char,
+                    original_libapp_paths: paths.as_ptr(),
+                    original_libapp_paths_size: 1,
+                    app_storage_dir: storage_c.as_ptr(),
+                    code_cache_dir: cache_c.as_ptr(),
+                };
+                let callbacks = c_api::FileCallbacks { open: fc_open, read: fc_read, seek: fc_seek, close: fc_close };
+                let yaml_c = CString::new("app_id: x").unwrap();
+                let a = c_api::shorebird_init(&params, callbacks, yaml_c.as_ptr());
+                let b = c_api::shorebird_init(std::ptr::null(), callbacks, yaml_c.as_ptr());
+                format!("{},{}", a, b)
+            }
             ["check0", rest @ ..] => {
                 let (r, rest2) = parse_resp(rest);
                 let refuse = self.http_script(&r, &None, rest2);
